@@ -24,9 +24,11 @@ SPEC = dict(
                 "second call on; the full clause LazyDemuxContractStatement fails on the very first start_send of each freshly created sink = "
                 "known finding F5, lazyDemux_send_after_ready_refuted). Findings F4 / F4b (LazySinkHalf::start_send after a source poll) were "
                 "repaired in /repo (cb04467b964); the model follows the repaired code and the refutations are kept against the old start_send "
-                "(lazySinkSource_send_after_ready_refuted_before_fix, lazySinkSource_inner_contract_refuted_before_fix). NOT proved, only "
-                "modelled and tied by correspondence + oracle: for_each/try_for_each (trivial), the stacked 3-stage chain (the theorems are "
-                "compositional in form — any inner sink, contract in => contract out — but the composite statement is not derived). Tie: 16 "
+                "(lazySinkSource_send_after_ready_refuted_before_fix, lazySinkSource_inner_contract_refuted_before_fix). Stacked chains: "
+                "chain_map_flatMap_filter_delivers_in_order derives the composite statement for the 3-stage chain map . flat_map . filter of the "
+                "correspondence (arbitrary closures, any inner sink, every polite client) from the single-adaptor theorems through "
+                "simulation-lifting lemmas (aux_sim_recd/map/flatMap/filter/run); other stacks chain the same way but are not spelled out. NOT "
+                "proved, only modelled and tied by correspondence + oracle: for_each/try_for_each (trivial: always Ready, closure log). Tie: 16 "
                 "pipeline kinds built with the real SinkBuild API over scripted downstream sinks; each client call's answer and every downstream "
                 "call (ready/send/flush/close with answers) are diffed against the compiled model; bounded-exhaustive readiness placements for "
                 "the single-sink kinds and bounded-exhaustive interleavings of the two LazySinkSource halves (all words over ready/send/next/flush); "
